@@ -5,7 +5,7 @@ META = {
     'level': 'proof',
     'technique': 'Lean 4 theorems (sort with tie-break + binary search + exact-hit scan = the order-free OSV sentence, all event lists incl. '
                  'events sharing a version) + exhaustive/random correspondence of the Lean model with vulns.IsAffected, every answer judged by the specification',
-    'design_ref': 'DESIGN.md §5 C18',
+    'design_ref': 'DESIGN.md §4 (section of C18), §5 (defects), §7 (seeded changes)',
     'text': 'Kernel-checked theorems: the specification is the property\'s own order-free sentence (osvDecl: the version lies in an interval opened by an '
             'introduced event i <= q that no fixed event in (i, q] and no last_affected event in [i, q) closes); it equals the OSV evaluation loop over the events '
             'ordered by (version, kind: fixed, introduced, last_affected) for EVERY event list (C18_decl). A range is well formed when, ordered that way, its '
